@@ -17,11 +17,13 @@ type Builder struct {
 	stack     []stackEntry      // DFS stack
 	matched   bool              // true if we've reached a match state in current closure
 	matchMask uint32            // slot mask accumulated to reach match state
+	matchEnd  bool              // true if that match state was reached through an end anchor
 
 	// DFA state being built
 	numStates  int                     // number of DFA states created
 	table      []Transition            // transition table
 	matchFlags []bool                  // match state flags
+	endFlags   []bool                  // match state matches only at end of input
 	matchSlots []uint32                // slots to apply at each match state
 	nfaToDFA   map[nfa.StateID]StateID // maps NFA state to DFA state ID
 
@@ -34,6 +36,7 @@ type Builder struct {
 type stackEntry struct {
 	nfaID nfa.StateID
 	slots uint32 // slot mask accumulated along epsilon path
+	atEnd bool   // epsilon path crossed an end anchor ($, \z): only valid at end of input
 }
 
 // Build attempts to build a one-pass DFA from the given NFA.
@@ -71,6 +74,12 @@ func Build(n *nfa.NFA) (*DFA, error) {
 	b.table = make([]Transition, 0, 64*b.stride)
 	b.matchFlags = make([]bool, 0, 64)
 
+	// Reserve state 0 as the dead state: a non-matching state whose transitions
+	// all lead back to itself. Transitions encode "no transition" as
+	// NextState() == DeadState, so no real state (in particular not the start
+	// state, which can be re-entered by loops such as a*(b)) may have ID 0.
+	b.addState(false, false, 0)
+
 	// Build DFA starting from anchored start state
 	startNFA := n.StartAnchored()
 	startDFA, err := b.buildState(startNFA)
@@ -88,6 +97,7 @@ func Build(n *nfa.NFA) (*DFA, error) {
 		stride2:     b.stride2,
 		startState:  startDFA,
 		matchStates: b.matchFlags,
+		endMatches:  b.endFlags,
 		matchSlots:  b.matchSlots,
 		stateCount:  b.numStates,
 	}
@@ -124,21 +134,8 @@ func (b *Builder) buildState(nfaRoot nfa.StateID) (StateID, error) {
 		return 0, fmt.Errorf("too many DFA states (max %d)", MaxStateID)
 	}
 
-	b.numStates++
-	b.matchFlags = append(b.matchFlags, isMatch)
-	// Store match slots (slots to apply when reaching this match state)
-	if isMatch {
-		b.matchSlots = append(b.matchSlots, b.matchMask)
-	} else {
-		b.matchSlots = append(b.matchSlots, 0)
-	}
+	startIdx := b.addState(isMatch, b.matchEnd, b.matchMask)
 	b.nfaToDFA[nfaRoot] = sid
-
-	// Allocate transition row (initialize to dead state)
-	startIdx := len(b.table)
-	for i := 0; i < b.stride; i++ {
-		b.table = append(b.table, NewTransition(DeadState, false, 0))
-	}
 
 	// Build transitions for each byte class
 	err = b.buildTransitions(startIdx, closure)
@@ -149,23 +146,53 @@ func (b *Builder) buildState(nfaRoot nfa.StateID) (StateID, error) {
 	return sid, nil
 }
 
+// addState appends a new DFA state with all transitions dead.
+// Returns the index of its row in the transition table.
+func (b *Builder) addState(isMatch, atEnd bool, matchMask uint32) int {
+	b.numStates++
+	b.matchFlags = append(b.matchFlags, isMatch)
+	b.endFlags = append(b.endFlags, isMatch && atEnd)
+	if isMatch {
+		b.matchSlots = append(b.matchSlots, matchMask)
+	} else {
+		b.matchSlots = append(b.matchSlots, 0)
+	}
+
+	// Allocate transition row (initialize to dead state)
+	startIdx := len(b.table)
+	for i := 0; i < b.stride; i++ {
+		b.table = append(b.table, NewTransition(DeadState, false, 0))
+	}
+	return startIdx
+}
+
 // closureEntry represents a state in the epsilon closure with accumulated slots.
+// Entries are listed in priority order (leftmost-first).
 type closureEntry struct {
-	nfaID nfa.StateID
-	slots uint32
+	nfaID     nfa.StateID
+	slots     uint32
+	atEnd     bool // reached through an end anchor: cannot consume further input
+	matchWins bool // a match state precedes this entry (has higher priority)
 }
 
 // epsilonClosureOnePass computes epsilon closure while checking one-pass property.
 // Returns (closure entries with slots, isMatch, error).
-// If isMatch is true, b.matchMask contains the slot mask to apply at match.
+// If isMatch is true, b.matchMask contains the slot mask to apply at match and
+// b.matchEnd tells whether the match is only valid at end of input.
+//
+// The closure is explored depth-first in priority order (the left branch of a
+// split before the right one), so the returned entries are sorted from highest
+// to lowest priority. Entries that follow the match state are flagged
+// matchWins: under leftmost-first semantics the match is preferred over them.
 func (b *Builder) epsilonClosureOnePass(root nfa.StateID) ([]closureEntry, bool, error) {
 	b.seen.Clear()
 	b.matched = false
 	b.matchMask = 0
+	b.matchEnd = false
 	b.stack = b.stack[:0]
 
 	// Start DFS from root
-	if err := b.stackPush(root, 0); err != nil {
+	if err := b.stackPush(root, 0, false); err != nil {
 		return nil, false, err
 	}
 
@@ -178,9 +205,12 @@ func (b *Builder) epsilonClosureOnePass(root nfa.StateID) ([]closureEntry, bool,
 
 		nfaID := entry.nfaID
 		slots := entry.slots
+		atEnd := entry.atEnd
 
-		// Save this entry with accumulated slots
-		closure = append(closure, closureEntry{nfaID, slots})
+		// Save this entry with accumulated slots. A match that is only valid at
+		// end of input never competes with a byte transition, so it does not
+		// shadow the entries that follow it.
+		closure = append(closure, closureEntry{nfaID, slots, atEnd, b.matched && !b.matchEnd})
 
 		state := b.nfa.State(nfaID)
 		if state == nil {
@@ -197,21 +227,23 @@ func (b *Builder) epsilonClosureOnePass(root nfa.StateID) ([]closureEntry, bool,
 			// Save the slots accumulated to reach match state
 			// These are the capture END positions
 			b.matchMask = slots
+			b.matchEnd = atEnd
 
 		case nfa.StateSplit:
-			// Follow both epsilon paths
+			// Follow both epsilon paths. The left branch has priority, so it is
+			// pushed last in order to be popped (explored) first.
 			left, right := state.Split()
-			if err := b.stackPush(left, slots); err != nil {
+			if err := b.stackPush(right, slots, atEnd); err != nil {
 				return nil, false, err
 			}
-			if err := b.stackPush(right, slots); err != nil {
+			if err := b.stackPush(left, slots, atEnd); err != nil {
 				return nil, false, err
 			}
 
 		case nfa.StateEpsilon:
 			// Follow epsilon transition
 			next := state.Epsilon()
-			if err := b.stackPush(next, slots); err != nil {
+			if err := b.stackPush(next, slots, atEnd); err != nil {
 				return nil, false, err
 			}
 
@@ -225,7 +257,7 @@ func (b *Builder) epsilonClosureOnePass(root nfa.StateID) ([]closureEntry, bool,
 			if slotIdx < 32 {
 				slots |= (1 << slotIdx)
 			}
-			if err := b.stackPush(next, slots); err != nil {
+			if err := b.stackPush(next, slots, atEnd); err != nil {
 				return nil, false, err
 			}
 
@@ -233,16 +265,27 @@ func (b *Builder) epsilonClosureOnePass(root nfa.StateID) ([]closureEntry, bool,
 			// Handle anchors (^, $, \A, \z) as epsilon transitions.
 			// For onepass DFA (which is always anchored at start):
 			// - Start anchors (^, \A): Always satisfied - follow epsilon
-			// - End anchors ($, \z): Follow epsilon; match checked at input end
-			_, next := state.Look()
+			// - End anchors ($, \z): Follow epsilon; match checked at input end.
+			//   Everything behind an end anchor is marked atEnd: it cannot
+			//   consume input and a match reached that way only counts once
+			//   the whole input has been consumed.
+			look, next := state.Look()
+			if look == nfa.LookEndText || look == nfa.LookEndLine {
+				atEnd = true
+			}
 			if next != nfa.InvalidState {
-				if err := b.stackPush(next, slots); err != nil {
+				if err := b.stackPush(next, slots, atEnd); err != nil {
 					return nil, false, err
 				}
 			}
 
 			// ByteRange and Sparse are not epsilon transitions
 			// They will be handled in buildTransitions
+
+		case nfa.StateRuneAny, nfa.StateRuneAnyNotNL:
+			// Rune-level transitions are not expanded into byte transitions by
+			// buildTransitions. Ignoring them would silently drop a path.
+			return nil, false, ErrNotOnePass
 		}
 	}
 
@@ -251,7 +294,7 @@ func (b *Builder) epsilonClosureOnePass(root nfa.StateID) ([]closureEntry, bool,
 
 // stackPush adds an NFA state to the DFS stack.
 // Returns error if state already visited (indicates non-one-pass).
-func (b *Builder) stackPush(nfaID nfa.StateID, slots uint32) error {
+func (b *Builder) stackPush(nfaID nfa.StateID, slots uint32, atEnd bool) error {
 	// Check if already visited via epsilon path
 	if b.seen.Contains(uint32(nfaID)) {
 		// Multiple epsilon paths to same state = NOT one-pass
@@ -259,7 +302,7 @@ func (b *Builder) stackPush(nfaID nfa.StateID, slots uint32) error {
 	}
 
 	b.seen.Insert(uint32(nfaID))
-	b.stack = append(b.stack, stackEntry{nfaID, slots})
+	b.stack = append(b.stack, stackEntry{nfaID, slots, atEnd})
 	return nil
 }
 
@@ -267,6 +310,7 @@ func (b *Builder) stackPush(nfaID nfa.StateID, slots uint32) error {
 type transInfo struct {
 	targetNFA nfa.StateID
 	slots     uint32 // Slots accumulated from SOURCE epsilon closure
+	matchWins bool   // The source state's match has priority over this transition
 }
 
 // buildTransitions builds byte transitions for a DFA state.
@@ -276,13 +320,32 @@ type transInfo struct {
 // (entry.slots), not from the target state. These slots represent capture
 // positions that should be recorded BEFORE consuming the byte.
 //
-//nolint:gocognit // complexity inherent to DFA construction algorithm
+// A byte class may be claimed by two closure entries only if both describe the
+// very same transition (same target, same slots, same priority relative to the
+// match state). Anything else would require remembering two paths, i.e. the
+// pattern is not one-pass.
 func (b *Builder) buildTransitions(tableIdx int, closure []closureEntry) error {
 	// Track which byte classes have transitions
 	// Key: byte class, Value: target NFA state + source slots
 	byteTransitions := make(map[byte]transInfo)
 
+	add := func(lo, hi byte, info transInfo) error {
+		// Use int to avoid overflow when hi=255 (byte wraps to 0)
+		for by := int(lo); by <= int(hi); by++ {
+			class := b.nfa.ByteClasses().Get(byte(by))
+			if existing, ok := byteTransitions[class]; ok && existing != info {
+				return ErrNotOnePass
+			}
+			byteTransitions[class] = info
+		}
+		return nil
+	}
+
 	for _, entry := range closure {
+		if entry.atEnd {
+			// Behind an end anchor: there is no input left to consume.
+			continue
+		}
 		state := b.nfa.State(entry.nfaID)
 		if state == nil {
 			continue
@@ -291,47 +354,14 @@ func (b *Builder) buildTransitions(tableIdx int, closure []closureEntry) error {
 		switch state.Kind() {
 		case nfa.StateByteRange:
 			lo, hi, next := state.ByteRange()
-			// Use int to avoid overflow when hi=255 (byte wraps to 0)
-			for by := int(lo); by <= int(hi); by++ {
-				class := b.nfa.ByteClasses().Get(byte(by))
-				// Check for conflict
-				if existing, ok := byteTransitions[class]; ok {
-					if existing.targetNFA != next {
-						return ErrNotOnePass
-					}
-					// Merge source slots (multiple paths to same transition)
-					byteTransitions[class] = transInfo{
-						targetNFA: next,
-						slots:     existing.slots | entry.slots,
-					}
-				} else {
-					byteTransitions[class] = transInfo{
-						targetNFA: next,
-						slots:     entry.slots, // SOURCE slots!
-					}
-				}
+			if err := add(lo, hi, transInfo{next, entry.slots, entry.matchWins}); err != nil {
+				return err
 			}
 
 		case nfa.StateSparse:
 			for _, trans := range state.Transitions() {
-				// Use int to avoid overflow when trans.Hi=255 (byte wraps to 0)
-				for by := int(trans.Lo); by <= int(trans.Hi); by++ {
-					class := b.nfa.ByteClasses().Get(byte(by))
-					// Check for conflict
-					if existing, ok := byteTransitions[class]; ok {
-						if existing.targetNFA != trans.Next {
-							return ErrNotOnePass
-						}
-						byteTransitions[class] = transInfo{
-							targetNFA: trans.Next,
-							slots:     existing.slots | entry.slots,
-						}
-					} else {
-						byteTransitions[class] = transInfo{
-							targetNFA: trans.Next,
-							slots:     entry.slots, // SOURCE slots!
-						}
-					}
+				if err := add(trans.Lo, trans.Hi, transInfo{trans.Next, entry.slots, entry.matchWins}); err != nil {
+					return err
 				}
 			}
 		}
@@ -346,7 +376,7 @@ func (b *Builder) buildTransitions(tableIdx int, closure []closureEntry) error {
 		}
 
 		// Create transition with SOURCE slots (applied at current position BEFORE consuming byte)
-		trans := NewTransition(nextDFA, false, info.slots)
+		trans := NewTransition(nextDFA, info.matchWins, info.slots)
 
 		// Store in table
 		idx := tableIdx + int(class)
